@@ -7,6 +7,7 @@ for n in "$@"; do
   git -C /repo worktree add -f --detach $d HEAD >/dev/null 2>&1 || { echo "worktree add failed $n"; continue; }
   rsync -a --exclude=.git /tmp/wt/base/ $d/
   /verif/tools/fixwt.sh $n >/dev/null
+  git -C $d checkout -- . && make -C $d -j4 >/dev/null 2>&1   # template may be older than HEAD: restore HEAD sources, rebuild what differs
   git -C $d status --short | grep -v '^??' | head -3
   echo "ready $d"
 done
